@@ -441,6 +441,66 @@ def set_t(v: uint256):
 def set_z(v: uint8):
     self.z = v
 """,
+    "layout.transient": """
+struct P:
+    u: uint256
+    v: uint256
+
+s1: uint256
+s2: uint256
+s3: uint256
+t0: transient(uint256)
+t: transient(DynArray[P, 2])
+tw: transient(DynArray[uint256, 2])
+ts: transient(P)
+
+@external
+def set_t(u: uint256, v: uint256):
+    self.t.append(P(u=u, v=v))
+
+@external
+def set_tw(u: uint256):
+    self.tw.append(u)
+
+@external
+def set_ts(u: uint256):
+    self.ts = P(u=u, v=u)
+
+@external
+def set_s2(u: uint256):
+    self.s2 = u
+
+@external
+def set_t0(u: uint256):
+    self.t0 = u
+""",
+    "layout.nested": """
+struct Q:
+    w: uint128[2]
+    f: bool
+
+n0: uint8
+q: Q[2]
+dd: DynArray[Q, 2]
+n1: int256
+
+@external
+def set_q(i: uint256, j: uint256, v: uint128):
+    self.q[i].w[j] = v
+    self.q[i].f = True
+
+@external
+def set_dd(v: uint128):
+    self.dd.append(Q(w=[v, v], f=False))
+
+@external
+def set_n1(v: int256):
+    self.n1 = v
+
+@external
+def set_n0(v: uint8):
+    self.n0 = v
+""",
     "layout.lock": """
 a: uint256
 b: uint256
